@@ -508,9 +508,12 @@ def run(ctx):
         ctx.count("C08.N3 numeric operator functions scanned" + tag, len(NUMERIC_FNS))
 
         # ---- N4
-        en = prog.fn("minijinja::compiler::lexer::Tokenizer::eat_number")
+        # read through a helper the conversion of the digits may have been moved into (`number_token(digits, radix, ..)`)
+        en = prog.view("minijinja::compiler::lexer::Tokenizer::eat_number", keep=("syntax_error", "advance"), max_blocks=80)
         conv = [c for c in en.calls() if "from_str_radix" in c.name or c.name.endswith("str>::parse") or c.name.endswith("::parse")]
         ctx.floor("C08.N4 literal conversions in eat_number" + tag, len(conv), 2)
+        conv_bbs = {k.bb for k in conv}
+        walked = None
         for c in conv:
             ds = errflow.disposition(en, c)
             ok = bool(ds)
@@ -523,6 +526,19 @@ def run(ctx):
                     if others and cfg.paths_must_pass(en, d[2], others, en.returns()):
                         continue
                 ok = False
+            if not ok:
+                # the failure may travel as the *value* of a Result (a helper returns `Err(msg)`, the caller maps it to the
+                # syntax error): walk the paths with the variants known.  A path on which the last conversion failed
+                # must not return Ok.
+                from .. import typestate
+                if walked is None:
+                    def on_call(k, st, val):
+                        if k.bb in conv_bbs:
+                            return [(0, ("Ok",)), (k.bb, ("Err",))]
+                        return None
+                    walked = typestate.explore(prog, en, 0, on_call)
+                bad_exit = [x for x in walked.exits if x[0] == c.bb and (x[1] is None or "Ok" in x[1])]
+                ok = not walked.budget_hit and bool(walked.exits) and not bad_exit
             ctx.ob("C08.N4.literal-conversion-error-is-reported",
                    "%seat_number|%s" % (tag, c.name.replace("core::num::<impl ", "").replace(">", "")),
                    ok, "result of %s is %s" % (c.name, ds), en.where(c.bb))
